@@ -149,6 +149,22 @@ def setPath (v : V) (path : List String) (x : V) : Option V :=
 def callFunc (name : String) (args : List V) : Option (R (List V)) :=
   (funcs.lookup name).map (· args)
 
+/-- The connection-tracking state builder as the SPECIFICATION has it (OVS ct_state bits new0 est1 rel2 rpl3 inv4 trk5
+    snat6 dnat7; "+flag" sets value and mask bit, "-flag" clears the value bit and sets the mask bit). API histories are
+    evaluated with these, not with the regenerated setter bodies (those are what C18 is about): a setter that touches a
+    wrong bit then shows up as a value the history did not supply (C03). -/
+def specCtSet (i : Nat) (set : Bool) : V → List V → R (V × List V) := fun recv _ =>
+  match recv with
+  | .obj "CTStates" [.num d, .num m] =>
+    let bitv := 2 ^ i
+    let d' := if set then d ||| bitv else d &&& (0xffffffff - bitv)
+    .ok (.obj "CTStates" [.num (d' % 4294967296), .num ((m ||| bitv) % 4294967296)], [])
+  | _ => .panic
+
+def specMethods : List (String × (V → List V → R (V × List V))) :=
+  (["New", "Est", "Rel", "Rpl", "Inv", "Trk", "SNAT", "DNAT"].zipIdx).flatMap fun (n, i) =>
+    [("CTStates.Set" ++ n, specCtSet i true), ("CTStates.Unset" ++ n, specCtSet i false)]
+
 def runStmt (env : Env) (k : Nat) (st : String) : StepRes :=
   if st.startsWith "!" then
     match env.lookup (st.drop 1).toString with
@@ -169,10 +185,14 @@ def runStmt (env : Env) (k : Nat) (st : String) : StepRes :=
       | .panic => .obs "panic"
       | .spin => .obs "spin"
     if rhs.startsWith "$" then
-      match rhs.splitOn "(" with
+      -- `$w.Field=arg` when an '=' occurs before any '(' (the argument itself may be a term with parentheses)
+      let isSet : Bool := match rhs.splitOn "=" with
+        | t :: _ :: _ => !(t.toList.contains '(')
+        | _ => false
+      match (if isSet then ["set"] else rhs.splitOn "(") with
       | [_] =>
         -- $w.Field=arg
-        match rhs.splitOn "=" with
+        match (match rhs.splitOn "=" with | t :: rest@(_ :: _) => [t, "=".intercalate rest] | o => o) with
         | [target, a] =>
           match (target.drop 1).toString.splitOn ".", evalArg env a with
           | w :: path, some x =>
@@ -190,7 +210,7 @@ def runStmt (env : Env) (k : Nat) (st : String) : StepRes :=
           let argText := ((rhs.drop (head.length + 1)).toString.dropEnd 1).toString
           match env.lookup w, evalArgs env argText with
           | some recv, some as =>
-            match methods.lookup (recv.kind ++ "." ++ m) with
+            match (specMethods.lookup (recv.kind ++ "." ++ m)).orElse (fun _ => methods.lookup (recv.kind ++ "." ++ m)) with
             | some f =>
               match f recv as with
               | .ok (recv', rs) => bind (.ok rs) (setVar env w recv')
@@ -392,6 +412,18 @@ def rtFrom (viaParse : Bool) (src : Except String V) (impl : String) : Verdict :
              | [l2, h2] =>
                (if h2 = h1 ∧ l2 = toString (if h1 = "-" then 0 else h1.length / 2) then []
                 else [(prop, s!"round trip of a {v0.kind}: encoded {h1.take 120}, re-encoded {h2.take 120} (size {l2})")]) ++
+               -- C02 on the value the DECODER built (top-level messages through Parse): its encoding follows the grammar
+               (if viaParse ∧ h2 ≠ "err2" then
+                  (match ofHex h2 with
+                   | some bs2 =>
+                     (match Spec.walk bs2 with
+                      | .error e =>
+                        if (e.splitOn "not controller-originated").length > 1 ∨ (e.splitOn "experimenter").length > 1 ∨
+                           (e.splitOn "nicira message type").length > 1 ∨ (e.splitOn "onf message type").length > 1 then []
+                        else [("C02", s!"a parsed {v0.kind}, encoded again, does not follow the wire grammar: {e} ({h2.take 120})")]
+                      | .ok _ => [])
+                   | none => [])
+                else []) ++
                -- C06 on the value the DECODER built: the size it reports is the number of bytes it encodes to
                (if h2 ≠ "err2" ∧ l2 ≠ toString (if h2 = "-" then 0 else h2.length / 2) then
                   [("C06", s!"a decoded {v0.kind} reports size {l2} and encodes to {if h2 = "-" then 0 else h2.length / 2} bytes ({h2.take 120})")]
@@ -415,7 +447,9 @@ def rtw : Handler := fun args impl =>
       (match parse (s.len + 1) s with
        | .ok .nil => { model := "pnil0" }
        | .ok v =>
-         let r := rtFrom true (.ok v) impl
+         let r0 := rtFrom true (.ok v) impl
+         -- frames of kinds with a known finding (echo payload, priority tag: flag "-") are exempt from the grammar oracle
+         let r := if rest = ["w"] then r0 else { r0 with more := r0.more.filter (fun (p, _) => p ≠ "C02") }
          -- the first re-encoding of the parsed frame
          let b1 := (impl.splitOn " | ").head?.getD ""
          let wire := toHex (s.buf.take s.len)
@@ -462,7 +496,11 @@ def scribble : Handler := fun args impl =>
         | .err => "err"
         | .panic => "panic"
         | .spin => "spin"
-      { model := m, more := if impl.startsWith "changed" then [("C12", s!"message changed after its input buffer was overwritten: {impl.take 300}")] else [] }
+      -- a message that changes when its input buffer is reused no longer shows what the switch put on the wire (C04:
+      -- "read from a neighbouring field" — of the next frame received into the same buffer) and does not own its memory (C12)
+      { model := m, more := if impl.startsWith "changed" then
+          [("C12", s!"message changed after its input buffer was overwritten: {impl.take 300}"),
+           ("C04", s!"parsed message shows other bytes than its frame carried once the receive buffer is reused: {impl.take 300}")] else [] }
     | none => unmodelled
   | _ => unmodelled
 
@@ -678,8 +716,14 @@ def embedH : Handler := fun _ impl =>
   if impl.startsWith "ok" ∨ impl = "panic" ∨ impl = "spin" ∨ impl.startsWith "err" then { model := impl }
   else { model := "ok", more := [("C06", s!"child not embedded intact: {impl.take 400}")] }
 
+/-- `repvia`: implementation-side check that encoding a container leaves the later encodings of the children built on
+    their own unchanged (C13); the model side is `C13b.embed_again`. The expected answer is "ok". -/
+def repviaH : Handler := fun _ impl =>
+  if impl.startsWith "ok" ∨ impl = "panic" ∨ impl = "spin" ∨ impl.startsWith "err" then { model := impl }
+  else { model := "ok", more := [("C13", s!"encoding the container changed a child's own encoding: {impl.take 400}")] }
+
 def handlers : List (String × Handler) :=
-  [("enc", enc), ("dec", decH), ("decc", fun a i => let v := decc a i
+  [("repvia", repviaH), ("enc", enc), ("dec", decH), ("decc", fun a i => let v := decc a i
       match a with
       | kn :: _ :: ln :: _ => if kn.startsWith "p." ∧ (i = "panic" ∨ i = "spin") then { v with more := [("C08", s!"{kn} decoder on {ln} bytes: {i}")] } else v
       | _ => v),
